@@ -206,7 +206,15 @@ def generate() -> None:
     body += "    (file::function::target::kind), sorted -/\n"
     body += "def bypassSites : List String := [\n"
     body += ",\n".join("  " + G.lstr(s) for s in sites)
-    body += "\n]\n\nend Ptk.Gen.C05\n"
+    body += "\n]\n\n"
+    try:
+        from prompt_toolkit.buffer import _QUOTED_WORDS_RE
+
+        pat = _QUOTED_WORDS_RE.pattern
+    except Exception:  # noqa
+        pat = "<missing>"
+    body += "/-- `buffer._QUOTED_WORDS_RE.pattern` (the scanner `Ptk.C05.splitQuoted` is written for this pattern) -/\n"
+    body += f"def quotedWordsRe : String := {G.lstr(pat)}\n\nend Ptk.Gen.C05\n"
     G.write("C05.lean", body)
 
 
